@@ -1227,7 +1227,8 @@ RETCODE adfFileCreateNextBlock ( struct AdfFile * const file )
             const unsigned used   = ( file->nDataBlock - MAX_DATABLK ) - extIdx * MAX_DATABLK;
             if ( file->currentExt == NULL ||
                  file->posInExtBlk != used ||
-                 file->currentExt->highSeq != (int32_t) used )
+                 file->currentExt->highSeq != (int32_t) used ||
+                 file->currentExt->extension != 0 )    /* (not the last one of the chain) */
             {
                 BOOL newExtBuffer = FALSE;
                 if ( file->currentExt == NULL ) {
